@@ -17,6 +17,11 @@ CHECKS = {
          "Held on every explored history: all sequences of depth 2 (quick) / 3 (thorough) over a 37-operation alphabet from three base states plus 300 / 20000 seeded random histories of length 10-25, the full observation set (lookups, listings, adjacency with label filters, label listings and scans, traversals) taken after every step. Bounded to the small universe and history lengths stated; the exhaustive part is complete for its bound.",
          "Trusted: the abstract-graph model (harness/model/graph.go). Known findings (same id twice in one batch) are excluded from generation by an avoid predicate and replayed as witnesses; a regression inside that region is invisible.",
          "5/C03"),
+ "C01": ("exploration",
+         "runtime reference-model monitor: generated programs x hostile/random graphs executed by the real compiler and pipeline (no optimizers, force-load decorator) in worker processes; canonical row multisets compared with a step-by-step reference interpreter; static typing pass as oracle for rejection",
+         "Held on every explored (program, graph) pair: all V/E-initial step sequences up to length 3 (quick) / 4 (thorough) over a 63-instance alphabet plus 2000 / 50000 random type-directed programs of length 5-9, on an 8-graph hostile library and 20 / 500 random graphs; ill-typed sequences must be rejected at compile time. Order-sensitive steps are judged by bound arithmetic and sub-multiset only. Nothing is claimed beyond the stated program lengths, alphabet and graph sizes.",
+         "Trusted: the reference interpreter harness/model/traversal.go (written from the docs; where the docs are silent it adopts the literal engine behaviour, listed as assumptions in the evidence). Programs whose meaning is unspecified are not generated.",
+         "5/C01 and appendix A"),
 }
 
 NOT_YET = "check not built yet in this session (design in DESIGN.md section 5); claimed once the monitor exists and is silent on the unchanged tree"
